@@ -83,16 +83,16 @@ theorem fromNestedTo2d_ok (ops : NameOps ν) {n c t : Nat} {X : Arr3 α} (hX : R
     simp only [Bool.false_eq_true, if_false]
     rw [hlabels]
 
-/-- C11: `from_2d_array_to_nested` (Series cells) makes one variable out of each row -/
-theorem from2dToNested_ok (ops : NameOps ν) (T : Tab2 α) (hne : T.rows ≠ []) :
-    from2dToNested ops T none false = .ok (nestedOf [ops.zero] false (panelOfRows T.rows)) ∧
-    ∀ name, from2dToNested ops T (some [name]) false =
-      .ok (nestedOf [name] false (panelOfRows T.rows)) := by
-  have hcols : ∀ name : ν, nestedOf [name] false (panelOfRows T.rows)
-      = ⟨[(name, T.rows.map (mkCell false))]⟩ := by
+/-- C11: `from_2d_array_to_nested` makes one variable out of each row (Series or array cells) -/
+theorem from2dToNested_ok (ops : NameOps ν) (T : Tab2 α) (hne : T.rows ≠ []) (k : Bool) :
+    from2dToNested ops T none k = .ok (nestedOf [ops.zero] k (panelOfRows T.rows)) ∧
+    ∀ name, from2dToNested ops T (some [name]) k =
+      .ok (nestedOf [name] k (panelOfRows T.rows)) := by
+  have hcols : ∀ name : ν, nestedOf [name] k (panelOfRows T.rows)
+      = ⟨[(name, T.rows.map (mkCell k))]⟩ := by
     intro name
-    have htr : ∀ l : List (List α), transposeW 1 (l.map ((List.map (mkCell false)) ∘ fun r => [r]))
-        = [l.map (mkCell false)] := by
+    have htr : ∀ l : List (List α), transposeW 1 (l.map ((List.map (mkCell k)) ∘ fun r => [r]))
+        = [l.map (mkCell k)] := by
       intro l
       induction l with
       | nil => rfl
